@@ -32,3 +32,22 @@ Lemma node_load_as_written : forall (b : bar Q) (nd : pnode Q) (d : dof3) i,
   let g := to_global (b_c b) (b_s b) (pn_net nd) in
   fraw_at (node_fterms b (nd, d)) i == fraw_at (asm_load_terms d (t_fx g) (t_fy g) (t_mz g)) i.
 Proof. intros. rewrite load_terms_as_written. reflexivity. Qed.
+
+(* the numbers that get the trivial equation are those the source picks for a supported node *)
+Lemma supported_numbers_as_written : forall nodes : list (link * dof3),
+  supported_of nodes =
+  flat_map (fun p => asm_supported_numbers (lk_dx (fst p)) (lk_dy (fst p)) (lk_rz (fst p)) (snd p)) nodes.
+Proof. intros. reflexivity. Qed.
+
+Lemma supported_number_is_trivial : forall (cs : list (nat * nat * Q)) (fs : list (nat * Q)) (nodes : list (link * dof3)) l d i j,
+  In (l, d) nodes -> In i (asm_supported_numbers (lk_dx l) (lk_dy l) (lk_rz l) d) ->
+  k_final cs (supported_of nodes) i j == (if Nat.eqb i j then 1 else 0) /\
+  k_final cs (supported_of nodes) j i == (if Nat.eqb j i then 1 else 0) /\
+  f_final fs (supported_of nodes) i == 0.
+Proof.
+  intros cs fs nodes l d i j Hin Hi.
+  assert (Hs : is_supported (supported_of nodes) i = true).
+  { unfold is_supported. apply existsb_exists. exists i. split; [| apply Nat.eqb_refl].
+    rewrite supported_numbers_as_written. apply in_flat_map. exists (l, d). split; [exact Hin | exact Hi]. }
+  apply (proj1 (constraints_only_touch cs fs (supported_of nodes) i j) Hs).
+Qed.
